@@ -16,7 +16,9 @@ RULE = ('(streams) momentum, SMA and volatility signals built over 1-5 assets wi
         'A_1_2, Z9, SPY, SP) and 1-4 lookbacks from 1..30 (incl. pairs like 2 and 12), fed positive price streams '
         '(prices down to 0.01, repeats) in random interleaving through Signal.append and through '
         'SignalsCollection.update with a stub handler, static and dynamic universes (optionally the volatility signal '
-        'on a static universe while momentum/SMA follow the dynamic one); every (signal, asset, lookback) '
+        'on a static universe while momentum/SMA follow the dynamic one); one step in ten offers a non-positive price '
+        '(refused with ValueError, not part of the stream) and, with static universes, the collection is sometimes '
+        'driven at a repeated or an earlier timestamp (each call still supplies one observation); every (signal, asset, lookback) '
         'is queried after every step. (sessions) full backtests with all three signals in one collection, static and '
         'dynamic universes (entry before the start / on a close / mid-range / after the end), dense and gappy markets, '
         'every rebalance kind, with and without burn-in, a recording alpha model evaluating every signal at each '
@@ -91,6 +93,10 @@ def check_all(sigs, hist, lbs, where):
     return n
 
 
+class Excluded(Exception):
+    pass
+
+
 def _one_pass(q, case, assets, lbs, dyn, split, uni_of, label):
     sigs = {'momentum': q.MomentumSignal(T0, uni_of['momentum'], list(lbs['momentum'])),
             'sma': q.SMASignal(T0, uni_of['sma'], list(lbs['sma'])),
@@ -108,7 +114,16 @@ def _one_pass(q, case, assets, lbs, dyn, split, uni_of, label):
         return [a for a in assets if (not dyn) or (dyn[assets.index(a)] is not None and
                                                    T0 + pd.Timedelta(days=dyn[assets.index(a)]) <= t)]
     for i, op in enumerate(case['ops']):
-        if op[0] == 'append':
+        if op[0] == 'refused':
+            # a non-positive price is not part of the stream: the documented ValueError, and nothing may change
+            a = assets[op[1] % len(assets)]
+            for name, s in sigs.items():
+                try:
+                    s.append(a, op[2])
+                except ValueError:
+                    continue
+                raise Excluded('non_positive_price_accepted')
+        elif op[0] == 'append':
             a = assets[op[1] % len(assets)]
             for name, s in sigs.items():
                 s.append(a, op[2])
@@ -118,7 +133,9 @@ def _one_pass(q, case, assets, lbs, dyn, split, uni_of, label):
             for j, a in enumerate(assets):
                 dh.set(a, op[1][j % len(op[1])])
             t = T0 + pd.Timedelta(days=day)
-            day += 1
+            # (static universes only) the collection may be driven at a repeated or an earlier timestamp: every call
+            # still supplies one observation
+            day = max(0, day + (op[2] if len(op) > 2 and not dyn else 1))
             coll.update(t)
             updates += 1
             if coll.warmup != updates:
@@ -153,7 +170,10 @@ def run_stream(case):
     for pass_no in range(passes):
         # a second pass builds fresh signals over the very same universe objects and replays the stream from T0,
         # as a second backtest in one process does
-        n_, hist = _one_pass(q, case, assets, lbs, dyn, split, uni_of, 'pass %d ' % (pass_no + 1) if passes > 1 else '')
+        try:
+            n_, hist = _one_pass(q, case, assets, lbs, dyn, split, uni_of, 'pass %d ' % (pass_no + 1) if passes > 1 else '')
+        except Excluded as e:
+            return Result([str(e)], excluded=str(e))
         nq += n_
 
     allb = sorted(set(x for v in lbs.values() for x in v))
@@ -173,6 +193,10 @@ def run_stream(case):
         cls.append('price_le_1')
     if any(op[0] == 'update' for op in case['ops']):
         cls.append('via_collection')
+    if any(op[0] == 'refused' for op in case['ops']):
+        cls.append('refused_non_positive_price_in_between')
+    if not dyn and any(op[0] == 'update' and len(op) > 2 and op[2] < 1 for op in case['ops']):
+        cls.append('collection_driven_at_repeated_or_earlier_time')
     nt = slides and len(assets) >= 2 and any(len(v) >= 2 for v in lbs.values())
     return Result(cls, nontrivial=nt, info={'queries': nq})
 
@@ -199,10 +223,13 @@ def streams(draw):
     n = draw(st.one_of(st.integers(1, 12), st.integers(1, 60)))
     ops = []
     for _ in range(n):
-        if mode == 'append' or (mode == 'mixed' and draw(st.booleans())):
+        if mode in ('append', 'mixed') and draw(st.sampled_from([False] * 9 + [True])):
+            ops.append(['refused', draw(st.integers(0, len(assets) - 1)), draw(st.sampled_from([0.0, -1.0, -0.01, -250.0]))])
+        elif mode == 'append' or (mode == 'mixed' and draw(st.booleans())):
             ops.append(['append', draw(st.integers(0, len(assets) - 1)), draw(sprice)])
         else:
-            ops.append(['update', [draw(sprice) for _ in range(draw(st.integers(1, len(assets))))]])
+            ops.append(['update', [draw(sprice) for _ in range(draw(st.integers(1, len(assets))))],
+                        draw(st.sampled_from([1, 1, 1, 1, 0, -2]))])
     case['ops'] = ops
     return case
 
